@@ -10,37 +10,80 @@ open FluentModel FluentModel.Syntax FluentModel.Syntax.Ser FluentProofs.Parser
 /-- the line a comment line is read back as: whitespace-only lines come back empty -/
 def canonLine (l : Bytes) : Bytes := if isBlankLine l then [] else l
 
-theorem commentLineEndGo_at (s : Src) (l : Bytes) (hl : ∀ b ∈ l, b ≠ 10 ∧ b ≠ 13) (p n : Nat) (h : At s p l)
-    (h10 : s[p + l.length]? = some 10) (hn : l.length ≤ n) : commentLineEndGo s n p = p + l.length := by
+theorem commentLineEndGo_at (s : Src) (l : Bytes) (hl : ∀ b ∈ l, b ≠ 10) (p n : Nat) (h : At s p l)
+    (c : UInt8) (hc : s[p + l.length]? = some c) (hend : isEol s (p + l.length) = true)
+    (hcr : endsCr l = true → c ≠ 10) (hn : l.length ≤ n) : commentLineEndGo s n p = p + l.length := by
   induction l generalizing p n with
   | nil =>
     cases n with
     | zero => rfl
-    | succ n => simp [commentLineEndGo, isEol, show s[p]? = some 10 by simpa using h10]
+    | succ n => simp [commentLineEndGo, show isEol s p = true by simpa using hend]
   | cons x xs ih =>
     obtain ⟨m, rfl⟩ : ∃ m, n = m + 1 := ⟨n - 1, by simp at hn; omega⟩
     rw [at_cons] at h
-    obtain ⟨x1, x2⟩ := hl x (by simp)
+    have x1 := hl x (by simp)
+    have hnext : x = 13 → s[p + 1]? ≠ some 10 := by
+      intro hx
+      cases xs with
+      | nil =>
+        have : s[p + 1]? = some c := by simpa using hc
+        rw [this]
+        have := hcr (by simp [endsCr, hx])
+        simpa using this
+      | cons y ys =>
+        have hy := h.2
+        rw [at_cons] at hy
+        rw [hy.1]
+        have := hl y (by simp)
+        simpa using this
     have heol : isEol s p = false := by
-      unfold isEol; rw [h.1]; split <;> simp_all
+      unfold isEol; rw [h.1]
+      split
+      · rename_i hh; cases hh; exact absurd rfl x1
+      · rename_i hh; cases hh; simpa using hnext rfl
+      · rename_i hh; cases hh
+      · rfl
     rw [commentLineEndGo, heol]
     simp only [Bool.false_eq_true, if_false]
     rw [ih (fun b hb => hl b (by simp [hb])) (p + 1) m h.2 (by
-      rw [show p + 1 + xs.length = p + (x :: xs).length by simp; omega]; exact h10) (by simpa using hn)]
+      rw [show p + 1 + xs.length = p + (x :: xs).length by simp; omega]; exact hc) (by
+      rw [show p + 1 + xs.length = p + (x :: xs).length by simp; omega]; exact hend) (by
+      intro hx
+      apply hcr
+      cases xs with
+      | nil => simp [endsCr] at hx
+      | cons y ys => simpa [endsCr] using hx) (by simpa using hn)]
     simp; omega
 
+theorem commentLineOK_mem {l : Bytes} (hl : commentLineOK l = true) : ∀ b ∈ l, b ≠ 10 := by
+  intro b hb
+  simp only [commentLineOK, List.all_eq_true] at hl
+  simpa using hl b hb
+
 theorem getCommentLine_at {s : Src} (hs : AsciiThenBoundary s) (l : Bytes) (hl : commentLineOK l = true) (p : Nat)
-    (hb : Bnd s p) (h : At s p l) (h10 : s[p + l.length]? = some 10) :
+    (hb : Bnd s p) (h : At s p l) (c : UInt8) (hc : s[p + l.length]? = some c) (hc128 : c < 128)
+    (hend : isEol s (p + l.length) = true) (hcr : endsCr l = true → c ≠ 10) :
     getCommentLine s p = .ok ⟨p, p + l.length⟩ (p + l.length) := by
-  have hl' : ∀ b ∈ l, b ≠ 10 ∧ b ≠ 13 := by
-    intro b hb
-    simp only [commentLineOK, List.all_eq_true] at hl
-    simpa using hl b hb
   unfold getCommentLine
-  have hlt := get_lt h10
-  rw [commentLineEndGo_at s l hl' p _ h h10 (by omega)]
+  have hlt := get_lt hc
+  rw [commentLineEndGo_at s l (commentLineOK_mem hl) p _ h c hc hend hcr (by omega)]
   simp only []
-  rw [slice_ok (by omega) hb (bnd_of_ascii h10 (by decide))]
+  rw [slice_ok (by omega) hb (bnd_of_ascii hc hc128)]
+
+/-- the line end behind a comment line `l` in the serialised text: `\n`, or `\r\n` when `l` ends with `\r` -/
+theorem commentLine_end (s : Src) (l : Bytes) (q : Nat) (rest : Bytes) (h : At s q (crDbl l ++ 10 :: rest)) :
+    ∃ c, s[q]? = some c ∧ c < 128 ∧ isEol s q = true ∧ (endsCr l = true → c ≠ 10) ∧
+      skipEol s q = some (q + (crDbl l).length + 1) ∧ At s (q + (crDbl l).length + 1) rest := by
+  unfold crDbl at h ⊢
+  cases hcr : endsCr l
+  · simp only [hcr, Bool.false_eq_true, if_false, List.nil_append, at_cons] at h
+    simp only [Bool.false_eq_true, if_false, List.length_nil, Nat.add_zero]
+    exact ⟨10, h.1, by decide, by simp [isEol, h.1], fun h0 => absurd h0 (by decide), by simp [skipEol, h.1], h.2⟩
+  · simp only [hcr, if_true, List.cons_append, List.nil_append, at_cons] at h
+    simp only [if_true, List.length_cons, List.length_nil]
+    refine ⟨13, h.1, by decide, by simp [isEol, h.1, h.2.1], fun _ => by decide, by simp [skipEol, h.1, h.2.1], ?_⟩
+    have := h.2.2
+    rwa [show q + 1 + 1 = q + (0 + 1) + 1 by omega] at this
 
 def hashes (k : Nat) : Bytes := List.replicate k 35
 
@@ -104,23 +147,22 @@ theorem getCommentGo_text {s : Src} (hs : AsciiThenBoundary s) (k : Nat) (hk : 1
     have hk0 : (k == 0) = false := by simp; omega
     cases hbl : isBlankLine l
     · -- `# text`
-      simp only [hbl, Bool.false_eq_true, if_false, List.cons_append, at_cons] at hrest hend
+      simp only [hbl, Bool.false_eq_true, if_false, List.cons_append, at_cons, List.append_assoc] at hrest hend
       rw [at_append] at hrest
       obtain ⟨h32, hlat, hrest2⟩ := hrest
-      simp only [at_cons] at hrest2
+      obtain ⟨c0, hc0, hc128, hceol, hccr, hsk, hrest3⟩ := commentLine_end s l (p + k + 1 + l.length) _ hrest2
       have hlvl := getCommentLevel_at s p k hk hpre 32 h32 (by decide)
       have heol : isEol s (p + k) = false := by simp [isEol, h32]
-      have hline := getCommentLine_at hs l hl (p + k + 1) (bnd_succ hs h32 (by decide)) hlat hrest2.1
-      have hsk : skipEol s (p + k + 1 + l.length) = some (p + k + 1 + l.length + 1) := by simp [skipEol, hrest2.1]
+      have hline := getCommentLine_at hs l hl (p + k + 1) (bnd_succ hs h32 (by decide)) hlat c0 hc0 hc128 hceol hccr
       obtain ⟨lines, hgo, hmap⟩ := ih (fun x hx => hc x (List.mem_cons_of_mem _ hx)) m k
-        (content ++ [⟨p + k + 1, p + k + 1 + l.length⟩]) (p + k + 1 + l.length + 1) (Or.inr rfl)
-        (fun _ => ⟨rfl, by omega⟩) hrest2.2
+        (content ++ [⟨p + k + 1, p + k + 1 + l.length⟩]) (p + k + 1 + l.length + (crDbl l).length + 1) (Or.inr rfl)
+        (fun _ => ⟨rfl, by omega⟩) hrest3
         (by
           obtain ⟨b, hb, hb35⟩ := hend
           refine ⟨b, ?_, hb35⟩
           simp only [List.length_append, List.length_cons, hklen] at hb
-          rw [show p + k + 1 + l.length + 1 + (commentText (hashes k) ls).length =
-            p + (k + (l.length + ((commentText (hashes k) ls).length + 1) + 1)) by omega]
+          rw [show p + k + 1 + l.length + (crDbl l).length + 1 + (commentText (hashes k) ls).length =
+            p + (k + (l.length + ((crDbl l).length + ((commentText (hashes k) ls).length + 1)) + 1)) by omega]
           exact hb)
         (by simp at hn; omega)
       refine ⟨⟨p + k + 1, p + k + 1 + l.length⟩ :: lines, ?_, ?_⟩
@@ -136,7 +178,8 @@ theorem getCommentGo_text {s : Src} (hs : AsciiThenBoundary s) (k : Nat) (hk : 1
       have hlvl := getCommentLevel_at s p k hk hpre 10 hrest.1 (by decide)
       have heol : isEol s (p + k) = true := by simp [isEol, hrest.1]
       have hbk : Bnd s (p + k) := bnd_of_ascii hrest.1 (by decide)
-      have hline := getCommentLine_at hs [] (by decide) (p + k) hbk (by simp) (by simpa using hrest.1)
+      have hline := getCommentLine_at hs [] (by decide) (p + k) hbk (by simp) 10 (by simpa using hrest.1) (by decide)
+        (by simpa using heol) (fun h0 => by cases h0)
       simp only [List.length_nil, Nat.add_zero] at hline
       have hsk : skipEol s (p + k) = some (p + k + 1) := by simp [skipEol, hrest.1]
       obtain ⟨lines, hgo, hmap⟩ := ih (fun x hx => hc x (List.mem_cons_of_mem _ hx)) m k
@@ -171,7 +214,7 @@ theorem EntryStart.stopper {s : Src} {q : Nat} (h : EntryStart s q) : Stopper s 
   rcases h with h | ⟨b, hb, hab⟩
   · exact Or.inl h
   · obtain ⟨h1, h2, h3, h4, _⟩ := entryStart_byte b hab
-    exact Or.inr (Or.inl ⟨b, hb, h2, h3, h4, h1⟩)
+    exact Or.inr (Or.inl ⟨b, hb, h2, h3, fun h => absurd h h4, h1⟩)
 
 theorem EntryStart.noSpace {s : Src} {q : Nat} (h : EntryStart s q) :
     s[q]? ≠ some 32 ∧ s[q]? ≠ some 10 ∧ s[q]? ≠ some 13 ∧ s[q]? ≠ some 46 := by
@@ -268,7 +311,7 @@ theorem getPattern_none (s : Src) (n q : Nat) (h10 : s[q]? = some 10) (hsp : ∀
   have hsbi : skipBlankInline s q = q := skipBlankInline_stay s q (by rw [h10]; decide)
   have heol : skipEol s q = some (q + 1) := by simp [skipEol, h10]
   have hsbb : skipBlankBlock s (q + 1) = (q + 1, 0) :=
-    skipBlankBlock_line s (q + 1) 4 46 hsp (by simpa using hdot) (by decide) (by decide) (by decide)
+    skipBlankBlock_line s (q + 1) 4 46 hsp (by simpa using hdot) (by decide) (by decide) (fun h => absurd h (by decide))
   have hstop : Stopper s (q + 1) :=
     Or.inr (Or.inr ⟨4, 46, by omega, hsp, by simpa using hdot, Or.inl rfl⟩)
   rw [getPattern]
@@ -466,7 +509,7 @@ theorem getValueAttrs_text {s : Src} (hs : AsciiThenBoundary s) (fuel : Nat) (hf
       rw [at_append] at h
       have hd := h.2
       simp only [List.cons_append, at_cons, spacesL, List.length_replicate] at hd
-      exact skipBlankBlock_line s _ 4 46 (at_spaces s _ 4 h.1) hd.1 (by decide) (by decide) (by decide)
+      exact skipBlankBlock_line s _ 4 46 (at_spaces s _ 4 h.1) hd.1 (by decide) (by decide) (fun h => absurd h (by decide))
   cases value with
   | some v =>
     simp only at hval
@@ -786,7 +829,7 @@ theorem entryText_start (b : Bool) (e : Entry Bytes) (he : rtEntry e = true) :
     | cons l ls =>
       cases pre with
       | nil => simp at hpre
-      | cons x xs => simp at hpre; subst hpre; exact ⟨xs ++ ((if isBlankLine l then [] else 32 :: l) ++ 10 :: commentText (35 :: xs) ls), by simp [commentText]⟩
+      | cons x xs => simp at hpre; subst hpre; exact ⟨xs ++ ((if isBlankLine l then [] else 32 :: (l ++ crDbl l)) ++ 10 :: commentText (35 :: xs) ls), by simp [commentText]⟩
   have hopt : ∀ (oc : Option (List Bytes)) (tl : Bytes) (c0 : UInt8) (tl' : Bytes), rtOptComment oc = true →
       tl = c0 :: tl' → (isAlpha c0 = true ∨ c0 = 45) →
       ∃ c rest, optCommentText oc ++ tl = c :: rest ∧ (isAlpha c = true ∨ c = 45 ∨ c = 35) := by
@@ -868,7 +911,7 @@ theorem commentText_len2 (k : Nat) (hk : 1 ≤ k) (c : List Bytes) (hne : c ≠ 
 
 theorem at_last10 {s : Src} {p : Nat} {bs : Bytes} (h : At s p bs) (hl : bs.getLast? = some 10) :
     s[p + bs.length - 1]? = some 10 := by
-  have hx := validText_of_ml.dropLast_snoc_self bs 10 hl
+  have hx := dropLast_snoc_self bs 10 hl
   have hlen : bs.length = bs.dropLast.length + 1 := by have := congrArg List.length hx; simpa using this
   rw [hx, at_append] at h
   simp only [at_cons] at h
